@@ -236,6 +236,8 @@ HdrNew(hdr, l) ==
 
 AddHeader(st, l) ==
   IF st.vlevel > 0 /\ \E v \in VNs(l) : VerOfVN(v) = "bad" THEN {Fail(st, "VersionError")}
+  \* level 0 is documented to skip the checks of the VN header: an unsupported value is not specified
+  ELSE IF st.vlevel = 0 /\ \E v \in VNs(l) : VerOfVN(v) = "bad" THEN {Unmodelled(st)}
   ELSE IF st.vlevel > 0 /\ st.ver # "none" /\ \E v \in VNs(l) : VerOfVN(v) # st.ver
     THEN {Fail(st, "VersionError")}
   ELSE IF HdrConflict(st.hdr, l) THEN {Fail(st, "Error")}
